@@ -19,6 +19,9 @@ pub fn fq_limbs(x: &crate::Fq) -> [u64; 4] {
     let r = x.0.raw();
     [r[0], r[1], r[2], r[3]]
 }
+pub fn fr_inner(x: &crate::Fr) -> RawFr {
+    x.0
+}
 pub fn fq_inner(x: &crate::Fq) -> RawFq {
     x.0
 }
